@@ -11,6 +11,7 @@ import (
 	"errors"
 	"fmt"
 	"strings"
+	"sync"
 	"testing"
 
 	"github.com/compose-spec/compose-go/v2/loader"
@@ -581,6 +582,106 @@ func c07CheckDoc(c *Ctx, cs c07DocCase) *Failure {
 	return nil
 }
 
+// c07ConcCase: several callers substitute their own templates at the same time. The value of a template is a
+// function of the template and the mapping only, whoever else is interpolating.
+type c07ConcCase struct {
+	Callers [][]c07Case `json:"callers"`
+	Rounds  int         `json:"rounds"`
+}
+
+// refOutcome is the reference for one template: the value, or the required-variable error, or "unspecified".
+func refOutcome(cs c07Case) (value string, rerr *refErr, unspecified bool) {
+	st := &evalState{vars: cs.Vars}
+	value = st.eval(cs.AST)
+	return value, st.err, st.lazyConflict
+}
+
+func c07CheckConcurrent(c *Ctx, cs c07ConcCase) *Failure {
+	type expect struct {
+		tmpl  string
+		value string
+		rerr  *refErr
+		skip  bool
+		m     template.Mapping
+		vars  map[string]string
+	}
+	plans := make([][]expect, len(cs.Callers))
+	ops := 0
+	for i, list := range cs.Callers {
+		for _, one := range list {
+			v, e, u := refOutcome(one)
+			plans[i] = append(plans[i], expect{tmpl: renderT(one.AST), value: v, rerr: e, skip: u, m: mappingOf(one.Vars), vars: one.Vars})
+			if hasOpOrNesting(one.AST) {
+				ops++
+			}
+		}
+	}
+	c.Label(fmt.Sprintf("callers:%d", len(cs.Callers)))
+	if ops > 0 {
+		c.NonTrivial(jsonKey(cs), map[string]any{"callers": len(cs.Callers), "first": plans[0][0].tmpl})
+	}
+	check := func(e expect) string {
+		if e.skip {
+			return ""
+		}
+		got, err := template.SubstituteWithOptions(e.tmpl, e.m, template.WithoutLogging)
+		switch {
+		case e.rerr != nil:
+			var mre *template.MissingRequiredError
+			if err == nil || !errors.As(err, &mre) || mre.Variable != e.rerr.Variable || mre.Reason != e.rerr.Reason {
+				return fmt.Sprintf("template %q vars %v: expected the required-variable error (%q, %q), got value %q error %v", e.tmpl, e.vars, e.rerr.Variable, e.rerr.Reason, got, err)
+			}
+		case err != nil:
+			return fmt.Sprintf("template %q vars %v: unexpected error %v (reference value %q)", e.tmpl, e.vars, err, e.value)
+		case got != e.value:
+			return fmt.Sprintf("template %q vars %v: got %q, reference %q", e.tmpl, e.vars, got, e.value)
+		}
+		return ""
+	}
+	// alone first: a wrong value here is not about concurrency
+	for _, plan := range plans {
+		for _, e := range plan {
+			if msg := check(e); msg != "" {
+				return failf("c07:wrong-value", "single caller: %s", msg)
+			}
+		}
+	}
+	var wg sync.WaitGroup
+	msgs := make([]string, len(plans))
+	start := make(chan struct{})
+	for i := range plans {
+		wg.Add(1)
+		go func(i int) {
+			defer wg.Done()
+			<-start
+			for r := 0; r < cs.Rounds && msgs[i] == ""; r++ {
+				for _, e := range plans[i] {
+					if msg := check(e); msg != "" {
+						msgs[i] = msg
+						return
+					}
+				}
+			}
+		}(i)
+	}
+	close(start)
+	wg.Wait()
+	for i, m := range msgs {
+		if m != "" {
+			return failf("c07:wrong-value-with-concurrent-callers", "caller %d of %d running at the same time: %s", i, len(plans), m)
+		}
+	}
+	// and once more alone afterwards: concurrent use must not leave the package in a broken state
+	for _, plan := range plans {
+		for _, e := range plan {
+			if msg := check(e); msg != "" {
+				return failf("c07:wrong-value-after-concurrent-callers", "single caller, after the concurrent phase: %s", msg)
+			}
+		}
+	}
+	return nil
+}
+
 func TestC07(t *testing.T) {
 	c := NewCtx(t, "C07")
 
@@ -636,6 +737,25 @@ func TestC07(t *testing.T) {
 			}
 			return c07StrCase{Tmpl: string(b), Vars: c07StrVarSets[rapid.IntRange(0, len(c07StrVarSets)-1).Draw(t, "vs")]}
 		}, Check: c07CheckString})
+
+	// (3) several callers at once (the schedule is the Go scheduler's: a sampled search, like every other case)
+	RunRapid(c, t, Sub[c07ConcCase]{Kind: "concurrent-callers", Quick: 150, Thorough: 3000,
+		Gen: func(t *rapid.T) c07ConcCase {
+			n := rapid.IntRange(2, 8).Draw(t, "callers")
+			cs := c07ConcCase{Rounds: 60}
+			for i := 0; i < n; i++ {
+				var list []c07Case
+				for j := 0; j < 6; j++ {
+					ast := genT(t, rapid.IntRange(1, 2).Draw(t, "depth"), false)
+					if !hasOpOrNesting(ast) {
+						ast = append(ast, tNode{K: "op", Text: rapid.SampledFrom(c07Names).Draw(t, "name"), Op: rapid.SampledFrom(c07Ops).Draw(t, "op"), Sub: []tNode{{K: "lit", Text: "d"}}})
+					}
+					list = append(list, c07Case{AST: ast, Vars: genVars(t)})
+				}
+				cs.Callers = append(cs.Callers, list)
+			}
+			return cs
+		}, Check: c07CheckConcurrent})
 
 	// (4) the same templates inside a compose document
 	RunRapid(c, t, Sub[c07DocCase]{Kind: "document", Quick: 4000, Thorough: 60_000,
